@@ -105,16 +105,12 @@ def evaluate(
 
   stdout = io.StringIO()
   with contextlib.redirect_stdout(stdout):
-    if hasattr(code_block.body[-1], 'value'):   # pytype: disable=attribute-error
-      last_expr = code_block.body.pop()  # pytype: disable=attribute-error
-      result_vars = [RESULT_KEY]
-
-      if isinstance(last_expr, ast.Assign):
-        for name_node in last_expr.targets:
-          if isinstance(name_node, ast.Name):
-            result_vars.append(name_node.id)
-
-      last_expr = ast.Expression(last_expr.value)  # pytype: disable=attribute-error
+    # Only an expression statement or a plain assignment can be evaluated as
+    # the value of the last line. Other statements that carry a `value` field
+    # (e.g. `x += 1`, `x: int = 1`, `return x`) must be executed as they are.
+    if isinstance(code_block.body[-1], (ast.Expr, ast.Assign)):   # pytype: disable=attribute-error
+      last_stmt = code_block.body.pop()  # pytype: disable=attribute-error
+      last_expr = ast.Expression(last_stmt.value)  # pytype: disable=attribute-error
 
       try:
         # Execute the lines before the last expression.
@@ -134,11 +130,25 @@ def evaluate(
         result = eval(  # pylint: disable=eval-used
             compile(last_expr, '', mode='eval'), global_vars
         )
+        global_vars[RESULT_KEY] = result
+
+        if isinstance(last_stmt, ast.Assign):
+          # Perform the assignment of the last line (to names, attributes,
+          # subscripts or unpacked targets) with the evaluated value.
+          assign_block = ast.Module(
+              body=[
+                  ast.Assign(
+                      targets=last_stmt.targets,
+                      value=ast.Name(id=RESULT_KEY, ctx=ast.Load()),
+                  )
+              ],
+              type_ignores=[],
+          )
+          ast.copy_location(assign_block.body[0], last_stmt)
+          ast.fix_missing_locations(assign_block)
+          exec(compile(assign_block, '', mode='exec'), global_vars)  # pylint: disable=exec-used
       except Exception as e:
         raise errors.CodeError(code, e) from e
-
-      for result_var in result_vars:
-        global_vars[result_var] = result
     else:
       try:
         exec(compile(code_block, '', mode='exec'), global_vars)  # pylint: disable=exec-used
